@@ -256,6 +256,40 @@ def nested_pattern(a: Tuple[str, ...], b: Tuple[str, ...]) -> int:
     return n
 
 
+def prune(a: Tuple[str, ...], b: Tuple[str, ...]) -> int:
+    d: Dict[str, int] = {}
+    for i, x in enumerate(a):
+        d[x] = i
+    e = d.copy()
+    for y in b:
+        if y in e:
+            del e[y]
+    e.update({"zz": 5, "a": 7})
+    f = {k: v for k, v in d.items() if k in b and v > 0}
+    n = 0
+    for k, v in f.items():
+        if k in e and e[k] != v:
+            n += 10
+    return len(d) + len(e) + len(e) + n + len(f) + len(f) + len(f)
+
+
+def del_missing(a: Tuple[str, ...]) -> int:
+    d: Dict[str, int] = {}
+    d["a"] = 1
+    d["b"] = 2
+    for x in a:
+        del d[x]
+    return len(d)
+
+
+def with_default(a: Tuple[str, ...], x: str = "a") -> int:
+    n = 0
+    for y in a:
+        if y == x:
+            n += 1
+    return n
+
+
 def mutate_and_raise(a: Set[UUID], b: Set[UUID]) -> bool:
     a.update(b)
     if not b:
@@ -468,8 +502,11 @@ GOOD2 = [
     T("opt_last_pos", [("a", TS), ("x", "str")], "int"), T("range_max", [("lo", "int"), ("hi", "int")], "int"),
     T("od_move", [("a", TS), ("x", "str")], TS), T("pair_unpack", [("a", TS)], "int"),
     T("nested_pattern", [("a", TS), ("b", TS)], "int"), T("mutate_and_raise", [("a", SS), ("b", SS)], "bool"),
+    T("prune", [("a", TS), ("b", TS)], "int"), T("del_missing", [("a", TS)], "int"),
+    Target("with_default", "selftest_src.py", None, "with_default", [("a", TS), ("x", "str")], "int", defaults={"x": "'a'"}),
 ]
-BAD = [("r_iter_built_set", [("a", TS)], "str"), ("r_defaultdict_read", [("a", TS)], "int"),
+BAD = [("with_default", [("a", TS), ("x", "str")], "int"),       # a default value the target does not declare
+       ("r_iter_built_set", [("a", TS)], "str"), ("r_defaultdict_read", [("a", TS)], "int"),
        ("r_store_then_mutate", [("a", SS), ("b", SS)], "bool"), ("r_dict_alias", [("a", TS)], "int"),
        ("r_chain_calls", [("a", TS)], "bool"), ("r_mutate_loop_element", [("a", TS)], "int"), ("r_list", [("a", SS)], "int"),
        ("r_while", [("a", "int")], "int"), ("r_try", [("a", TS)], "str"), ("r_lazy_index", [("a", TS)], "bool"),
